@@ -1514,7 +1514,7 @@ def rand_grammar(rnd, gid, tier):
     P = "verif_common::oracles::"
     nrules = rnd.randint(2, 4)
     names = ["S"] + ["R%d" % i for i in range(1, nrules)]
-    fixed = ["T", "C", "D", "O", "A", "B", "TS", "L"]   # always available helper rules (defined below)
+    fixed = ["T", "C", "D", "O", "A", "B", "TS", "L", "L"]   # always available helper rules (defined below)
     fields = ["x", "y", "z"]
     lits = ["a", "b", "ab", "c", "ba"]
 
@@ -1548,8 +1548,11 @@ def rand_grammar(rnd, gid, tier):
             return Seq(*[expr(i, depth - 1, allow_field) for _ in range(rnd.randint(2, 3))])
         if k < 0.56:
             alts = [expr(i, depth - 1, allow_field) for _ in range(rnd.randint(2, 3))]
-            if rnd.random() < 0.2:
+            k2 = rnd.random()
+            if k2 < 0.2:
                 alts.append(Seq())                 # an empty last alternative: the choice is nullable
+            elif k2 < 0.26:
+                alts.insert(rnd.randint(0, len(alts) - 1), Seq())   # ... first or in the middle: the rest is unreachable
             return Choice(*alts)
         if k < 0.68:
             return Opt(expr(i, depth - 1, allow_field))
@@ -1566,26 +1569,64 @@ def rand_grammar(rnd, gid, tier):
 
     depth = 3 if tier != "quick" else rnd.choice([2, 3])
     rules = []
+    user_rs = []
+    always = {"o": "always", "path": P + "chk_always", "name": P + "chk_always"}
+
+    def span_check(rule, n):
+        fn = "chk_span_%s" % rule
+        user_rs.append("pub fn %s(v: &%s) -> bool { logged(\"%s\", v, v.position.end - v.position.start <= %d) }" % (fn, rule, fn, n))
+        pth = "crate::cases::g_%s::user::%s" % (gid, fn)
+        return {"o": "span_le", "n": n, "path": pth, "name": pth}
+
     for i, n in enumerate(names):
         body = expr(i, depth, True)
-        rules.append(Rule(n, body, export=(i == 0), position=rnd.random() < 0.5, no_skip_ws=rnd.random() < 0.5,
-                          memoize=(i > 0 and rnd.random() < 0.4)))
+        pos = rnd.random() < 0.5
+        chk = []
+        k = rnd.random()
+        if i > 0 and k < 0.12:
+            chk = [always]
+        elif i > 0 and k < 0.3 and pos:
+            chk = [span_check(n, rnd.randint(1, 3))]
+        rules.append(Rule(n, body, export=(i == 0), position=pos, no_skip_ws=rnd.random() < 0.5,
+                          memoize=(i > 0 and rnd.random() < 0.4), checks=chk))
     even = {"o": "str_even", "path": P + "chk_str_even", "name": P + "chk_str_even"}
+    # a left-recursive helper of a random shape: plain / nullable tail / two operators / indirect through an
+    # enum override; sometimes with a check that ends the growth early
+    lk = rnd.random()
+    l_pos = rnd.random() < 0.4
+    l_ws = rnd.random() < 0.5
+    extra_l = []
+    if lk < 0.35:
+        l_body = Choice(Seq(Call("L", "l", boxed=True), Lit("c"), Call("A", "r")), Call("A", "r"))
+    elif lk < 0.5:
+        l_body = Choice(Seq(Call("L", "l", boxed=True), Opt(Seq(Lit("c"), Call("A", "r")))), Call("A", "q"))
+    elif lk < 0.65:
+        l_body = Choice(Seq(Call("L", "l", boxed=True), Clo(Call("B", "bs"))), Call("A", "q"))
+    elif lk < 0.8:
+        l_body = Choice(Seq(Call("L", "l", boxed=True), Lit("c"), Call("A", "r")), Seq(Call("L", "l", boxed=True), Lit("b"), Call("A", "r")),
+                        Call("A", "r"))
+    else:
+        l_body = Choice(Call("LP", "@"), Call("A", "@"))
+        extra_l = [Rule("LP", Seq(Call("L", "l", boxed=True), Lit("c"), Call("A", "r")), no_skip_ws=l_ws, position=rnd.random() < 0.3)]
+        l_pos = False
+    l_chk = []
+    if rnd.random() < 0.3:
+        l_chk = [span_check("L", rnd.randint(2, 4))] if l_pos else [always]
     # a @string rule with a random field-less body that starts by consuming (optional tails, lookaheads, choices inside)
     ts_body = Seq(consuming_atom(len(names), False), expr(len(names), 2, False))
     ts_checked = rnd.random() < 0.25          # (the library check takes a plain String: not with @position)
     rules += [
         Rule("TS", ts_body, string=True, no_skip_ws=rnd.random() < 0.5, position=(not ts_checked and rnd.random() < 0.3),
              memoize=rnd.random() < 0.3, checks=([even] if ts_checked else [])),
-        Rule("L", Choice(Seq(Call("L", "l", boxed=True), Lit("c"), Call("A", "r")), Call("A", "r")), leftrec=True,
-             no_skip_ws=rnd.random() < 0.5, position=rnd.random() < 0.3),
+        Rule("L", l_body, leftrec=True, no_skip_ws=l_ws, position=l_pos, checks=l_chk),
         Rule("T", Clo(Choice(Lit("a"), Lit("b")), plus=True), string=True, no_skip_ws=rnd.random() < 0.7, position=rnd.random() < 0.3),
         CharRule("C", [("lit", "c"), ("range", "a", "b")]),
         ExternRule("D", {"o": "digits", "path": P + "ext_digits", "nullable": False}),
         Rule("O", Choice(Call("A", "@"), Call("B", "@", boxed=rnd.random() < 0.3)), no_skip_ws=rnd.random() < 0.5),
         Rule("A", Lit("a"), position=rnd.random() < 0.3), Rule("B", Seq(Lit("b"), Opt(Lit("b"))), no_skip_ws=True),
     ]
-    g = Grammar(gid, rules, root="S", maxlen=2 if tier == "quick" else 3, meta={"shape": "random"})
+    rules += extra_l
+    g = Grammar(gid, rules, root="S", maxlen=2 if tier == "quick" else 3, meta={"shape": "random", "user_rs": "\n".join(user_rs)})
     g.alpha = ["a", "b", "c", " ", "1"] if any(r.kind == "rule" and not r.no_skip_ws for r in rules) else ["a", "b", "c", "1"]
     return g
 
@@ -1621,6 +1662,10 @@ def fam_randmemo(tier, seed):
                     r.memoize = (not r.memoize) if flip else r.memoize
             h.meta = dict(g.meta, base=g.id, memo=[r.name for r in h.rules if r.kind == "rule" and r.memoize],
                           probes={}, nrules=0, all_memo=False)
+            for r in h.rules:
+                for c in getattr(r, "checks", []):     # per-grammar check functions live in the grammar's own module
+                    c["path"] = c["path"].replace("g_" + g.id, "g_" + h.id)
+                    c["name"] = c["name"].replace("g_" + g.id, "g_" + h.id)
             out.append(h)
     return out
 
